@@ -30,7 +30,7 @@ ASSUMPTIONS = [
 ]
 COMPONENTS = {"real": ["pyxel outputs (create_output_directory, save_to_files, save_to_file, apply_run_number)", "run_mode for the three modes and the file entry point pyxel.run (filename table, output_filenames.csv)", "dask get_async", "numpy.save / astropy fits.writeto / PIL on a real scratch filesystem"], "stub": ["wall clock (SimDateTime)", "thread pool", "OSError injection wrappers"]}
 BUDGET = {"quick": {"n": 400, "wall": 110, "determinism": 4}, "thorough": {"n": 30000, "wall": 1600, "determinism": 12}}
-REQUIRED_REACH = ["runs_with_identical_parameters", "seeded_observation", "bucket_in_several_entries", "via:file", "kind:exposure", "kind:obs-seq", "kind:obs-par", "same_second_starts", "clock_backwards", "prepopulated_dir", "concurrent_starts", "mkdir_lost_race", "fault:mkdir", "fault:write", "multi_key_mapping", "fmt:fits", "fmt:npy", "fmt:jpg", "resave_collision", "picture_format_before_lossless"]
+REQUIRED_REACH = ["runs_with_identical_parameters", "seeded_observation", "bucket_in_several_entries", "via:file", "kind:exposure", "kind:obs-seq", "kind:obs-par", "same_second_starts", "clock_backwards", "prepopulated_dir", "concurrent_starts", "mkdir_lost_race", "fault:mkdir", "fault:write", "multi_key_mapping", "fmt:fits", "fmt:npy", "fmt:jpg", "resave_collision", "auto_numbered_saves", "picture_format_before_lossless"]
 
 BUCKETS = ("photon", "pixel", "signal", "image")
 
@@ -74,7 +74,7 @@ def gen_start(rng):
         op["pipeline_seed"] = rng.randrange(1, 2**31)
     if op["kind"] in ("exposure", "obs-seq") and op["via"] == "api" and rng.random() < 0.25:
         # afterwards the same buckets are saved once more into the same folder under an already used run number
-        op["resave"] = rng.choice([0, 0, 1])
+        op["resave"] = rng.choice([0, 0, 1, "auto", "auto"])  # "auto": a dozen more saves with automatic numbering
     return op
 
 
@@ -265,6 +265,26 @@ def _resave(s, op, mode, viol, stats, feat):
     pyxel.run_mode(mode=Exposure(readout=world.build_readout(s["readout"])), detector=det2, pipeline=pipe2, with_inherited_coords=True)
     before = listing(folder)
     raised = None
+    if op["resave"] == "auto":
+        # automatic numbering: every further save takes the next free number, whatever the count
+        stats["auto_numbered_saves"] = 1
+        proc = Processor(detector=det2, pipeline=pipe2)
+        for n9 in range(12):
+            snap9 = listing(folder)
+            try:
+                mode.outputs.save_to_file(processor=proc)
+            except Exception as exc:  # noqa: BLE001
+                viol.append({"clause": "C19.no-clobber", "signature": f"C19.auto-numbered-save-fails@{feat}", "detail": {"save": n9 + 1, "exc": repr(exc)[:200]}})
+                break
+            now9 = listing(folder)
+            gone = [os.path.basename(p9) for p9, d9 in snap9.items() if now9.get(p9) != d9]
+            if gone:
+                viol.append({"clause": "C19.no-clobber", "signature": f"C19.existing-file-overwritten@{feat}+auto-numbered", "detail": {"save": n9 + 1, "files": gone[:3]}})
+                break
+            if len(now9) <= len(snap9):
+                viol.append({"clause": "C19.complete", "signature": f"C19.auto-numbered-save-wrote-nothing@{feat}", "detail": {"save": n9 + 1}})
+                break
+        return
     try:
         mode.outputs.save_to_file(processor=Processor(detector=det2, pipeline=pipe2), run_number=op["resave"])
     except Exception as exc:  # noqa: BLE001
